@@ -190,7 +190,13 @@ def build_harness(name, tags="verif", race=False, overlay=None):
         cmd.insert(2, "-race")
         env["CGO_ENABLED"] = "1"
     if overlay:
-        cmd += ["-overlay", overlay]
+        # white-box files injected into the eventloop package of the tree under test (never written into that tree)
+        odir = os.path.join(hdir, "overlay")
+        repl = {os.path.join(REPO, "eventloop", f): os.path.join(odir, f) for f in sorted(os.listdir(odir)) if f.endswith(".go")}
+        ojson = os.path.join(BUILD, "overlay.json")
+        with open(ojson, "w") as fh:
+            json.dump({"Replace": repl}, fh)
+        cmd += ["-overlay", ojson]
     cmd.append("./cmd/" + name)
     rc, o, dt = sh(cmd, cwd=hdir, env=env, timeout=600)
     return rc, o, out
